@@ -23,6 +23,11 @@ def seeds_for(prop):
         if not os.path.exists(mp):
             continue
         meta = json.load(open(mp))
+        if "reported_by" in meta:
+            # the list recorded by dev/sweep_seeds.py --write (every check that reported this change)
+            if prop in meta["reported_by"]:
+                out.append((sid, os.path.join(base, sid, "patch.diff")))
+            continue
         caught = " ".join(meta.get("caught_by", []))
         if prop in caught.replace(",", " ").split() or any(prop in c.split("(")[0] for c in meta.get("caught_by", [])):
             out.append((sid, os.path.join(base, sid, "patch.diff")))
